@@ -141,8 +141,14 @@ func runPcCase(c pcCase) (labels []string, owner []uint64, obs []string, groups,
 					w = nil
 				}
 			}
-			if w != nil && w.K == "disconnected" && w.P == l.P && !inTable(l.P) {
-				w = nil // the one combination whose result depends on which writer wins (see PeerMgrConc.v)
+			if w != nil && !inTable(l.P) {
+				// the callers will take the write lock too, and which writer wins is not determined: keep only
+				// writers whose effect commutes with the callers' getOrCreate (see PeerMgrConc.v)
+				if w.K == "disconnected" && w.P == l.P {
+					w = nil // would remove the process the callers create, or find nothing to remove
+				} else if w.K == "connected" && w.P != l.P && !inTable(w.P) {
+					w = nil // would create a process too: the two new processes' numbers depend on the order
+				}
 			}
 			n := l.N
 			if n < 1 {
